@@ -370,3 +370,70 @@ def run(ctx):
                 r.check(w is None, "%s/%s-arm/exit-only-after-vote" % (tag, l), c.loc(), "from the `%s` arm the task returns only through vote()" % l,
                         "the `%s` arm can leave the task's loop without calling vote() (path through blocks %s): the runtime stops although the other tasks have not voted, e.g. an agent that is only serving HTTP requests" % (l, (w or [])[:8]))
         r.check(n >= 5, "scope/vote-sites", "-", "%d tasks vote" % n)
+
+    with ctx.rule("C17.R9", "T2+T8", "every coordinator's Receiver is handed to a task of the runtime that awaits it (someone acts on unanimity)", floor=3) as r:
+        # Voters only learn `Unanimous` / `UnanimityPending`; the parties told `UnanimityPending` rely on the Receiver being polled by the task that
+        # stops the runtime. A coordinator whose Receiver is dropped (or parked in a variable) leaves them waiting for ever whenever the deciding
+        # vote comes from a task whose exit does not itself stop the others.
+        n_sites = 0
+        for b in rt.all_bodies():
+            if "::tests" in b.defpath or "timeout_coord" in b.defpath:
+                continue
+            for c in b.calls:
+                if not (c.defpath or "").startswith("swimos_runtime::timeout_coord::") or "coordinator" not in (c.name or ""):
+                    continue
+                ty = b.locals[c.dest[0]] if not c.dest[1] else ""
+                comps = [x.strip() for x in ty.strip("()").split(",")]
+                ks = [i for i, x in enumerate(comps) if x.endswith("timeout_coord::Receiver")]
+                if len(ks) != 1:
+                    raise AnchorMissing("%s: the coordinator's result has no single Receiver component (%s)" % (b.defpath, ty[:80]))
+                k = ks[0]
+                n_sites += 1
+                ctx.saw(b)
+                tag = owner_def(b).replace("swimos_runtime::", "")
+                # forward flow of the Receiver: moves, aggregates (tuples, closures, futures), calls that take it and return something holding it
+                taint = set()
+                sinks = []
+                changed = True
+
+                def mentions(op):
+                    pl = op_place(op)
+                    if pl is None:
+                        return False
+                    if pl[0] == c.dest[0]:
+                        fl = [x for x in pl[1] if isinstance(x, list) and x[0] == "f"]
+                        return bool(fl) and fl[0][1] == k
+                    return pl[0] in taint
+                rounds = 0
+                while changed and rounds < 30:
+                    changed = False
+                    rounds += 1
+                    for i, j, p_, rv, line in b.assigns():
+                        ops = []
+                        if rv[0] in ("use",):
+                            ops = [rv[1]]
+                        elif rv[0] == "cast":
+                            ops = [rv[2]]
+                        elif rv[0] == "agg":
+                            ops = list(rv[2])
+                        elif rv[0] == "ref":
+                            ops = [["c", rv[2]]]
+                        if any(mentions(o) for o in ops) and p_[0] not in taint and p_[0] != c.dest[0]:
+                            taint.add(p_[0])
+                            changed = True
+                    for x in b.calls:
+                        if x is c or x.exp:
+                            continue
+                        if any(mentions(a) for a in x.args):
+                            if x not in sinks:
+                                sinks.append(x)
+                            if x.dest and x.dest[0] not in taint:
+                                taint.add(x.dest[0])
+                                changed = True
+                tasks = [x for x in sinks if (x.defpath or "").startswith("swimos_runtime::") and "timeout_coord" not in (x.defpath or "") and x.name not in ("drop", "select")]
+                awaited = [x for x in sinks if x.name in ("poll", "into_future")]
+                r.check(bool(tasks) or bool(awaited), "%s/receiver-reaches-a-task" % tag, c.loc(),
+                        "the Receiver flows into %s" % sorted({x.name for x in tasks} | {x.name for x in awaited}),
+                        "the Receiver of the coordinator is never handed to a task or awaited (it reaches only %s): when the deciding vote is cast by a party whose exit does not stop the others, nobody observes unanimity and the parties told `UnanimityPending` wait for ever" % (sorted({x.name or "?" for x in sinks}) or "nothing"))
+        if n_sites < 3:
+            raise AnchorMissing("coordinator construction sites: expected 3 (agent, value downlink, map downlink), found %d" % n_sites)
